@@ -453,7 +453,7 @@ pub fn check(ctx: &Ctx) -> i32 {
         }
     }
     let hostile_jobs = if ctx.quick() { 16 } else { 64 };
-    let hostile_count = if ctx.quick() { 20_000 } else { 250_000 };
+    let hostile_count = if ctx.quick() { 100_000 } else { 1_500_000 };
     for k in 0..hostile_jobs {
         jobs.push(Job::Hostile { seed: ctx.seed.wrapping_mul(1000).wrapping_add(k), count: (hostile_count as f64 * ctx.scale) as u64 });
     }
@@ -467,9 +467,9 @@ pub fn check(ctx: &Ctx) -> i32 {
     }
     // round trip, random large
     for k in 0..ctx.n(16, 64) as u64 {
-        jobs.push(Job::RoundTripRandom { seed: ctx.seed ^ (0xC14 + k), count: if ctx.quick() { 150 } else { 1500 }, max_inputs: 16, max_len: 64 });
-        jobs.push(Job::RoundTripRandom { seed: ctx.seed ^ (0xC1400 + k), count: if ctx.quick() { 6 } else { 60 }, max_inputs: 128, max_len: 65_535 });
-        jobs.push(Job::RoundTripRandom { seed: ctx.seed ^ (0xC140000 + k), count: if ctx.quick() { 40 } else { 400 }, max_inputs: 128, max_len: 300 });
+        jobs.push(Job::RoundTripRandom { seed: ctx.seed ^ (0xC14 + k), count: if ctx.quick() { 1500 } else { 15_000 }, max_inputs: 16, max_len: 64 });
+        jobs.push(Job::RoundTripRandom { seed: ctx.seed ^ (0xC1400 + k), count: if ctx.quick() { 12 } else { 120 }, max_inputs: 128, max_len: 65_535 });
+        jobs.push(Job::RoundTripRandom { seed: ctx.seed ^ (0xC140000 + k), count: if ctx.quick() { 300 } else { 3000 }, max_inputs: 128, max_len: 300 });
     }
     let jobs: Vec<Job> = jobs.into_iter().filter(|j| ctx.only_case.as_ref().is_none_or(|o| *o == j.id())).collect();
     let res = par_run(ctx, &jobs, &|j: &Job| j.id(), &run_job);
